@@ -24,4 +24,5 @@ PROPERTY RestoreInWindow
 PROPERTY OsScanInWindow
 PROPERTY InstantOnlyAtZero
 PROPERTY OffTicksChangeNothing
+
 CHECK_DEADLOCK TRUE
